@@ -3,7 +3,7 @@ import numpy as np
 from vlib import caseio, gen
 
 ID = "C02"
-COQ_TARGETS = ["C02_Extract.vo", "C02_Proofs.vo"]
+COQ_TARGETS = ["C02_Extract.vo", "C02_Proofs.vo", "C02_Transport.vo"]
 EXTRACTED = "C02_model"
 DRIVER = "drv_C02.ml"
 HARNESS = "h_C02.cpp"
